@@ -72,6 +72,7 @@ fn cache_at_quiescence_matches_model() {
         // model: what the last accepted write under each key was (value, charged cost); None = may be absent
         let mut last: std::collections::HashMap<u64, (u64, i64)> = Default::default();
         let mut has_ttl: std::collections::HashMap<u64, bool> = Default::default(); // deadline of the last applied write: 1 h or none
+        let mut cleared = false; // a clear() happened in this round
         let mut c04_applies = true; // false once the workload stopped fitting (an entry of its own exceeded max_cost, or the total did)
         let mut accepted: Vec<u64> = Vec::new(); // every value handed to an insert that returned true (values are unique)
         let mut next_val = 1000u64 * (round + 1);
@@ -99,7 +100,7 @@ fn cache_at_quiescence_matches_model() {
                 }
                 3 => { let mc = 4 + rng.below(40) as i64; c.update_max_cost(mc); script.push(format!("update_max_cost({})", mc)); }
                 4 => {
-                    if rng.below(4) == 0 { c.clear().unwrap(); script.push("clear()".into()); last.clear(); accepted.clear(); has_ttl.clear(); c04_applies = true;
+                    if rng.below(4) == 0 { cleared = true; c.clear().unwrap(); script.push("clear()".into()); last.clear(); accepted.clear(); has_ttl.clear(); c04_applies = true;
                         // the clear signal travels on its own channel and the processor picks among ready channels at random: let it
                         // consume the signal before going on, so that this oracle stays on the decided (quiescent) side of C11
                         // (the race itself is probed by `insert_after_clear_is_kept`)
@@ -177,6 +178,14 @@ fn cache_at_quiescence_matches_model() {
                 bad!("C17:add.key-ledger", &["C17"], "LFUPolicy::add", format!("keys_added-keys_evicted={} charged entries={}", m.get_keys_added().unwrap() as i64 - m.get_keys_evicted().unwrap() as i64, charges.len()), "equal".into()); }
             if m.get_cost_added().unwrap().wrapping_sub(m.get_cost_evicted().unwrap()) as i64 != used {
                 bad!("C17:add.cost-ledger", &["C17"], "LFUPolicy::add", format!("cost_added-cost_evicted={} used={}", m.get_cost_added().unwrap().wrapping_sub(m.get_cost_evicted().unwrap()) as i64, used), "equal".into()); }
+            // every eviction (victim of an admission, expired entry) of an admitted entry leaves one life-expectancy sample
+            if !cleared {
+                let n_ev = evs.iter().filter(|e| matches!(e, Ev::Evict(..))).count() as i64;
+                let dbg = format!("{:?}", m.life_expectancy_seconds());
+                let n_life = dbg.split("count: ").nth(1).and_then(|x| x.split(|ch: char| !ch.is_ascii_digit() && ch != '-').next()).and_then(|x| x.parse::<i64>().ok());
+                if n_life != Some(n_ev) {
+                    bad!("C17:glue.life-sample", &["C17"], "CacheProcessor::track_admission", format!("{:?} life-expectancy sample(s) after {} on_evict callback(s)", n_life, n_ev), "one sample per evicted entry".into()); }
+            }
             // C04: nothing is lost while everything fits
             let total: i64 = last.values().map(|x| x.1).sum();
             if total > mc { c04_applies = false; }
